@@ -236,6 +236,9 @@ func IsAvcBoundary(pkt RtpPacket) bool {
 
 	// TODO(chef): [fix] 检查数据长度有效性 202211
 	b := pkt.Body()
+	if len(b) == 0 {
+		return false
+	}
 	outerNaluType := avc.ParseNaluType(b[0])
 
 	if _, ok := boundaryNaluTypes[outerNaluType]; ok {
@@ -243,6 +246,9 @@ func IsAvcBoundary(pkt RtpPacket) bool {
 	}
 
 	if outerNaluType == NaluTypeAvcStapa {
+		if len(b) < 4 {
+			return false
+		}
 		t := avc.ParseNaluType(b[3])
 		if _, ok := boundaryNaluTypes[t]; ok {
 			return true
@@ -250,6 +256,9 @@ func IsAvcBoundary(pkt RtpPacket) bool {
 	}
 
 	if outerNaluType == NaluTypeAvcFua {
+		if len(b) < 2 {
+			return false
+		}
 		t := avc.ParseNaluType(b[1])
 		if _, ok := boundaryNaluTypes[t]; ok {
 			if b[1]&0x80 != 0 {
@@ -278,6 +287,9 @@ func IsHevcBoundary(pkt RtpPacket) bool {
 
 	// TODO(chef): [fix] 检查数据长度有效性 202211
 	b := pkt.Body()
+	if len(b) == 0 {
+		return false
+	}
 	outerNaluType := hevc.ParseNaluType(b[0])
 
 	if _, ok := boundaryNaluTypes[outerNaluType]; ok {
@@ -285,6 +297,9 @@ func IsHevcBoundary(pkt RtpPacket) bool {
 	}
 
 	if outerNaluType == NaluTypeHevcFua {
+		if len(b) < 3 {
+			return false
+		}
 		t := b[2] & 0x3F // 注意，这里是后6位，不是中间6位
 		if _, ok := boundaryNaluTypes[t]; ok {
 			if b[2]&0x80 != 0 {
